@@ -336,6 +336,7 @@ def render_class(style, inv, child, dbc, contracts):
                + ("    q2 = property(icontract.ensure(lambda result: True)(_get_q), doc='explicit q2 doc')\n" if contracts and dbc else
                   "    q2 = property(_get_q, doc='explicit q2 doc')\n") +
                "    def swap(this, self):\n        return ('swap', self)\n"
+               "    def util(x):\n        return ('util', x)\n"
                "    def pub(self, x):\n        return ('pub', x)\n    @property\n    def p(self):\n        \"\"\"doc of p\"\"\"\n        return 7\n"
                "    @staticmethod\n    def sm(x):\n        return ('sm', x)\n    @classmethod\n    def cm(cls, x):\n        return (cls.__name__, x)\n")
     if style == "namedtuple":
@@ -489,6 +490,7 @@ def class_script(ns, style, child):
         rec("type", lambda: type(r) is Root)
         if style == "user_new":
             rec("made", lambda: r.made)
+    rec("util_through_class", lambda: Root.util(3))   # a plain function kept in the class body and used through the class
     rec("doc_p", lambda: Root.p.__doc__)
     rec("doc_q", lambda: Root.q.__doc__)
     rec("doc_w2", lambda: Root.w2.__doc__)
